@@ -182,3 +182,61 @@ def cone_class(blocks):
         if b['fam'] in ('n2', 'ssq', 'ell', 'pn', 'pow'):
             k = 'soc'
     return k
+
+
+# ---- probability sets and worst-case expectations -----------------------------------------------
+
+def prob_constraints(pname, P):
+    """constraint ASTs on the probability vector `pname` for probability-set spec P"""
+    phat = list(P['phat'])
+    k = P['kind']
+    p = ['v', pname]
+    if k == 'fixed':
+        return [['==', p, ['c', phat]]]
+    if k == 'box':
+        d = P['d']
+        return [['>=', p, ['c', [max(0.0, round(v - d, 6)) for v in phat]]], ['<=', p, ['c', [round(v + d, 6) for v in phat]]]]
+    if k == 'l1':
+        return [['<=', ['norm', ['-', p, ['c', phat]], 1], ['c', P['theta']]]]
+    if k == 'linf':
+        return [['<=', ['norm', ['-', p, ['c', phat]], 'inf'], ['c', P['d']]]]
+    if k == 'kl':
+        return [['kl', p, phat, P['r']]]
+    raise ValueError(k)
+
+
+def worst_case_expectation(P, deltas):
+    """max over p in P (and the simplex) of sum_s p_s * deltas[s]; direct LP, no RSOME."""
+    from scipy.optimize import linprog
+    from . import world
+    lp = world.REAL.get('linprog', linprog)
+    d = np.asarray(deltas, float)
+    S = len(d)
+    phat = np.asarray(P['phat'], float)
+    k = P['kind']
+    if k == 'fixed':
+        return float(phat @ d)
+    if k in ('box', 'linf'):
+        lo = np.maximum(0.0, phat - P['d'])
+        hi = phat + P['d']
+        if k == 'box':
+            lo = np.array([max(0.0, round(v - P['d'], 6)) for v in phat])
+            hi = np.array([round(v + P['d'], 6) for v in phat])
+        res = lp(-d, A_eq=np.ones((1, S)), b_eq=[1.0], bounds=list(zip(lo, hi)))
+        if res.status != 0:
+            raise RuntimeError('reference LP failed')
+        return float(-res.fun)
+    if k == 'l1':
+        # variables p (S), t (S): |p - phat| <= t, sum t <= theta, sum p = 1, p >= 0
+        c = np.concatenate([-d, np.zeros(S)])
+        A, b = [], []
+        for s in range(S):
+            r1 = np.zeros(2 * S); r1[s] = 1; r1[S + s] = -1; A.append(r1); b.append(phat[s])
+            r2 = np.zeros(2 * S); r2[s] = -1; r2[S + s] = -1; A.append(r2); b.append(-phat[s])
+        r3 = np.zeros(2 * S); r3[S:] = 1; A.append(r3); b.append(P['theta'])
+        Aeq = np.zeros((1, 2 * S)); Aeq[0, :S] = 1
+        res = lp(c, A_ub=np.array(A), b_ub=np.array(b), A_eq=Aeq, b_eq=[1.0], bounds=[(0, None)] * (2 * S))
+        if res.status != 0:
+            raise RuntimeError('reference LP failed')
+        return float(-res.fun)
+    raise ValueError('no reference for probability set kind %s' % k)
